@@ -190,7 +190,8 @@ def gen_ens(rng, *, sampler="inject", merge=None, affine=True, edge=False, small
     return {"kind": "ens", "V": V, "R": R, "P": P, "no": no, "nc": nc, "x0": x0, "mask": mask, "weights": weights,
             "ow": ow, "stds": stds, "slopes": slopes, "offsets": offsets, "quad": quad, "pmin": pmin, "rmin": rmin,
             "merge": bool(merge), "merge_mode": merge_mode, "sampler": samp, "magnitudes": magnitudes, "bounds": bounds,
-            "boundary": boundary, "pfail": pfail, "rfail": rfail, "failcol": failcol, "scaler": scaler, "filter": filt}
+            "boundary": boundary, "pfail": pfail, "rfail": rfail, "failcol": failcol, "scaler": scaler, "filter": filt,
+            "split": rng.random() < (0.6 if filt is not None else 0.25)}
 
 
 def gen_ls(rng, *, between=False, full=False):
@@ -355,8 +356,13 @@ def run_ens(case):
                 out[i] += Q[r] * float(np.sum(variables[i] ** 2))
             if (p < 0 and case["rfail"][r]) or (p >= 0 and case["pfail"][r][p]):
                 out[i, case["failcol"][r][p + 1]] = np.nan
-        log["out"] = out.copy()
-        log["vars"] = np.array(variables, dtype=np.float64)
+        if perts is not None and np.all(np.asarray(perts) >= 0) and "out" in log:
+            # gradient-only request after a function request (split mode): keep the function rows in front
+            log["out"] = np.vstack([log["out"][:R], out])
+            log["vars"] = np.vstack([log["vars"][:R], np.array(variables, dtype=np.float64)])
+        else:
+            log["out"] = out.copy()
+            log["vars"] = np.array(variables, dtype=np.float64)
         return EvaluatorResult(objectives=out[:, :no].copy(), constraints=out[:, no:].copy() if nc else None)
 
     transforms = None
@@ -373,7 +379,22 @@ def run_ens(case):
         obs = {"x": x.tolist(), "cfg_weights": np.array(config.realizations.weights, dtype=np.float64).tolist(),
                "cfg_ow": np.array(config.objectives.weights, dtype=np.float64).tolist()}
         try:
-            f, g = ee.calculate(x, compute_functions=True, compute_gradients=True)
+            f = g = None
+            if case.get("split"):
+                # the optimizer asks for the functions first and for the gradient at the same point later:
+                # the gradient-only path re-uses the cached function results (weights, failures)
+                try:
+                    (f,) = ee.calculate(x, compute_functions=True, compute_gradients=False)
+                except OptimizationAborted:
+                    f = None
+                if f is not None and f.functions is not None:
+                    (g,) = ee.calculate(x, compute_functions=False, compute_gradients=True)
+                else:   # no functions: nothing is cached, the combined request decides (fresh evaluator)
+                    obs["split_fallback"] = True
+                    log.clear()
+                    ee = EnsembleEvaluator(config, transforms, evaluator, _plugin_manager())
+            if g is None:
+                f, g = ee.calculate(x, compute_functions=True, compute_gradients=True)
         except OptimizationAborted as e:
             out = _propagate(log["out"])
             obs.update({"outcome": "abort", "exit_code": int(e.exit_code.value),
@@ -398,8 +419,12 @@ def run_ens(case):
         "X": X.tolist(), "f0": f0.tolist(), "fp": fp.tolist(),
         "failed_fn": [bool(v) for v in f.realizations.failed_realizations],
         "failed": [bool(v) for v in g.realizations.failed_realizations],
-        "ow_rows": None if g.realizations.objective_weights is None else np.array(g.realizations.objective_weights).tolist(),
-        "cw_rows": None if g.realizations.constraint_weights is None else np.array(g.realizations.constraint_weights).tolist(),
+        # the weights in force are those of the FUNCTION results (they define the reported ensemble functions);
+        # the gradient results must report the same rows (oracle clause "gradient-weights-differ")
+        "ow_rows": None if f.realizations.objective_weights is None else np.array(f.realizations.objective_weights).tolist(),
+        "cw_rows": None if f.realizations.constraint_weights is None else np.array(f.realizations.constraint_weights).tolist(),
+        "g_ow_rows": None if g.realizations.objective_weights is None else np.array(g.realizations.objective_weights).tolist(),
+        "g_cw_rows": None if g.realizations.constraint_weights is None else np.array(g.realizations.constraint_weights).tolist(),
         "fun": None if f.functions is None else
         (list(np.array(f.functions.objectives).tolist()) + (list(np.array(f.functions.constraints).tolist()) if nc else [])),
     })
@@ -654,6 +679,12 @@ def oracle(case, obs):
         return None
     if obs.get("outcome") != "grad":
         return None
+    for kf, kg in (("ow_rows", "g_ow_rows"), ("cw_rows", "g_cw_rows")):
+        if kg in obs and not ((obs[kf] is None and obs[kg] is None) or
+                              (obs[kf] is not None and obs[kg] is not None and
+                               np.array_equal(np.array(obs[kf], dtype=np.float64), np.array(obs[kg], dtype=np.float64)))):
+            return {"clause": "gradient_results_report_other_weights_than_function_results",
+                    "detail": {"function_results": obs[kf], "gradient_results": obs[kg], "which": kf}}
     free = np.array(_free(case), dtype=bool)
     G = np.array(obs["grad"], dtype=np.float64)
     wg = np.array(obs["wgrad"], dtype=np.float64)
@@ -726,7 +757,8 @@ def features(case, obs):
            "merge": case["merge_mode"] or "no", "affine": case["quad"] is None, "stddev": any(case["stds"]),
            "perturbation_failures": any(any(r) for r in case["pfail"]), "realization_failures": any(case["rfail"]),
            "filter": case["filter"]["method"] if case["filter"] else "none", "scaler": case["scaler"] is not None,
-           "bounds": "none" if case["bounds"] is None else "set", "zero_weight": any(w == 0 for w in case["weights"])}
+           "bounds": "none" if case["bounds"] is None else "set", "zero_weight": any(w == 0 for w in case["weights"]),
+           "request": ("split-fallback" if obs.get("split_fallback") else "functions-then-gradient") if case.get("split") else "combined"}
     if obs.get("outcome") == "grad" and case["quad"] is None:
         out["inside_1pct_bound"] = _cond_ok(case, obs)
     return out
